@@ -91,6 +91,10 @@ class ModuleEnvs:
             return self.cache[key]
         stub = self.interp.stubs.get(f"{modname}.{name}")
         if stub is not None:
+            try:
+                stub.qualname = f"{modname}.{name}"       # lets the call site be checked against the real signature
+            except Exception:
+                pass
             self.cache[key] = stub
             return stub
         if key in self.resolving:
